@@ -487,6 +487,20 @@ impl Ctrl {
         g.actors.iter().enumerate().any(|(j, x)| j != i && x.kernel_of == Some(i) && (x.kactive > 0 || x.st == ASt::AtPoint) && !(vid != 0 && x.hosting == Some(vid)))
     }
 
+    /// a kernel slot stopped at a point although the coroutine it works for has finished
+    pub fn kernel_outlives(&self) -> Option<String> {
+        let g = self.lock();
+        for x in g.actors.iter() {
+            if let Some(i) = x.kernel_of {
+                if x.st == ASt::AtPoint && i < g.actors.len() && g.actors[i].is_co && matches!(g.actors[i].st, ASt::Finished(_)) {
+                    let site = x.at.as_ref().map_or("", |p| p.site);
+                    return Some(format!("use after free: the kernel side of a yield of {} is still at work (next step: {site}) although the coroutine has been resumed by somebody else, has run to its end and has dropped the socket this code refers to", g.actors[i].name));
+                }
+            }
+        }
+        None
+    }
+
     pub fn kernel_idle(&self, k: usize) -> bool {
         let g = self.lock();
         g.actors[k].kernel_of.is_some() && g.actors[k].kactive == 0
